@@ -12,7 +12,9 @@ from vflib.driver import Monitor, OPS, QUERY, VERIFY
 
 PROP = 'C08'
 RULE = (
-    'seeded random hands of every family (strict and lenient warnings, both '
+    '(i) bounded-exhaustive: EVERY state of the complete decision trees of '
+    'small games (vflib.explore: 2-3 players, stacks of 1-8 chips) gets the '
+    'full probe battery; (ii) seeded random hands of every family (strict and lenient warnings, both '
     'modes, any automation subset); at sampled decision points (every state '
     'of the first steps, then 1-in-k) and after the hand the probe battery '
     'calls, for each of the sixteen operations and a hostile argument set '
@@ -34,12 +36,12 @@ ASSUMPTIONS = [
     'repr(State) covers every dataclass field (checked at start-up)',
 ]
 CASES = {'quick': 2200, 'thorough': 30000}
-TIME = {'quick': 80, 'thorough': 570}
+TIME = {'quick': 66, 'thorough': 520}
 MIN_NONTRIVIAL = {'quick': 400, 'thorough': 800}
 REQUIRED = ('probed_states', 'probe_triplets', 'refused_operations_checked',
             'accepted_operations_checked', 'explicit_index_checked',
             'warned_refusals_strict', 'post_hand_states_probed',
-            'wrong_player_probes')
+            'wrong_player_probes', 'explored_nodes', 'trees_completed')
 
 CUSTOMS = ('kuhn', 'draw5', 'stud5', 'greek', 'holdem8', 'badugi1',
            'razzdraw', 'random', 'studdraw')
@@ -291,6 +293,22 @@ class ProbeMonitor(Monitor):
         ctx.tag('probed')
 
 
+class EndProbe(ProbeMonitor):
+    """For the bounded-exhaustive walk (vflib.explore): every node of the
+    decision tree is the end of exactly one path, so probing at the end of
+    each path probes every reachable state of the small game once."""
+
+    def on_decision(self, ctx, s, avail):
+        return
+
+    def on_end(self, ctx, s):
+        if 'op_exc' in ctx.data:
+            return
+        self.probe(ctx, s, driver.available(s))
+        ctx.data['c08_sigs'] = self.sigs
+        ctx.tag('probed')
+
+
 def make_monitors():
     return [ProbeMonitor()]
 
@@ -334,6 +352,22 @@ def run_shard(seed, shard, of, tier, deadline):
         gen_kwargs=gen_kwargs, make_monitors=make_monitors,
         nontrivial=nontrivial, pol_tweak=pol_tweak, classify=classify,
         after_hand=after_hand, signature=lambda ctx: 'x')
+    # every state of the complete decision trees of small games
+    import random as _random
+    import time as _time
+    from vflib import explore
+    from vflib.run import shard_seed
+    xr = _random.Random(shard_seed(seed, PROP + ':explore', shard))
+    left = max(2.0, min({'quick': 10, 'thorough': 120}[tier],
+                        deadline - _time.time() + 6))
+    before = len(res.sigs)
+
+    def nt(ctx):
+        after_hand(ctx, res)
+        return False
+    explore.run_exploration(res, PROP, xr, lambda: [EndProbe()], left,
+                            {'quick': 400, 'thorough': 6000}[tier],
+                            classify=classify, nontrivial=nt)
     res.sigs = allsigs
     return res
 
